@@ -650,6 +650,31 @@ impl Gen {
                 let msg = if h.last.eng.whitelist.contains(&t) { eng::ExecuteMsg::RemoveWhitelist { address: t } } else { eng::ExecuteMsg::AddWhitelist { address: t } };
                 h.step(Op::Engine { sender: pauser, msg, funds: 0 }, r)
             }
+            11 if self.rng.chance(1, 3) => {
+                // re-point the vAMM's insurance fund (its shutdown authority) to a plain account and back:
+                // the engine's own insurance fund must keep receiving what the engine owes it
+                let cur = h.last.vamms[v].cfg_insurance.clone();
+                let next = if cur == h.w.insurance.to_string() { "guardian".to_string() } else { h.w.insurance.to_string() };
+                let owner = h.last.vamms[v].owner.clone();
+                h.step(
+                    Op::Vamm {
+                        sender: owner,
+                        vamm: v,
+                        msg: vm::ExecuteMsg::UpdateConfig {
+                            base_asset_holding_cap: None,
+                            open_interest_notional_cap: None,
+                            toll_ratio: None,
+                            spread_ratio: None,
+                            fluctuation_limit_ratio: None,
+                            margin_engine: None,
+                            insurance_fund: Some(next),
+                            pricefeed: None,
+                            spot_price_twap_interval: None,
+                        },
+                    },
+                    r,
+                )
+            }
             11 => {
                 let val = *self.rng.pick(&[59u64, 60, 900, 3600, 604_800, 604_801]);
                 self.vamm_cfg(h, r, v, |c| c.twap_interval = Some(val))
@@ -769,9 +794,52 @@ impl Gen {
         self.do_step(h, r, op)
     }
 
+    /// Hostile input: an account that is not the margin engine calls the vAMM's engine-only entry points directly.
+    pub fn rand_forged_vamm_call(&mut self, h: &mut History, r: &mut Report) -> Rc<Step> {
+        let v = self.pick_vamm(h);
+        let vs = h.last.vamms[v].clone();
+        let sender = match self.rng.below(5) {
+            0 => "stranger".to_string(),
+            1 => self.pick_trader().to_string(),
+            2 => vs.owner.clone(),
+            3 => h.w.insurance.to_string(),
+            _ => "liquidator".to_string(),
+        };
+        let add = self.rng.chance(1, 2);
+        let msg = match self.rng.below(5) {
+            0 | 1 => vm::ExecuteMsg::SwapOutput { direction: dir(add), base_asset_amount: u(self.rng.log_uniform(1, (vs.b / 20).max(2))), quote_asset_limit: u(0) },
+            2 | 3 => vm::ExecuteMsg::SwapInput { direction: dir(add), quote_asset_amount: u(self.rng.log_uniform(1, (vs.q / 20).max(2))), base_asset_limit: u(0), can_go_over_fluctuation: self.rng.chance(1, 2) },
+            _ => vm::ExecuteMsg::SettleFunding {},
+        };
+        h.step(Op::Vamm { sender, vamm: v, msg }, r)
+    }
+
+    /// Hostile input: a Liquidate naming a trader / vAMM with surrounding whitespace must not be resolved
+    /// to the un-padded account.
+    pub fn rand_padded_liquidate(&mut self, h: &mut History, r: &mut Report) -> Rc<Step> {
+        let Some((victim, v)) = self.rand_pos(h) else { return self.rand_advance(h, r) };
+        let pad = |s: &str, k: u64| match k {
+            0 => format!("{} ", s),
+            1 => format!(" {}", s),
+            _ => format!(" {} ", s),
+        };
+        let k = self.rng.below(3);
+        let (vamm, trader) = match self.rng.below(3) {
+            0 => (Self::vaddr(h, v), pad(&victim, k)),
+            1 => (pad(&Self::vaddr(h, v), k), victim.clone()),
+            _ => (pad(&Self::vaddr(h, v), k), pad(&victim, k)),
+        };
+        let op = Op::Engine { sender: "liquidator".into(), msg: eng::ExecuteMsg::Liquidate { vamm, trader, quote_asset_limit: u(0) }, funds: 0 };
+        self.do_step(h, r, op)
+    }
+
     pub fn rand_op(&mut self, h: &mut History, r: &mut Report) -> Rc<Step> {
         if self.rng.chance(self.prof.alias_pct, 1000) {
-            return self.rand_alias_attack(h, r);
+            return match self.rng.below(4) {
+                0 => self.rand_forged_vamm_call(h, r),
+                1 => self.rand_padded_liquidate(h, r),
+                _ => self.rand_alias_attack(h, r),
+            };
         }
         if self.rng.chance(self.prof.heal_pct, 100) {
             self.heal(h, r);
@@ -1256,6 +1324,44 @@ impl Gen {
         }
     }
 
+    /// Pump and dump inside ONE block: a whale pumps, victims enter at the top with maximum leverage, the
+    /// whale dumps; the victims are under water by spot and by TWAP at once and are liquidated in that same
+    /// block, one after the other (every liquidation after the first happens in a "liquidation block").
+    pub fn macro_pump_dump(&mut self, h: &mut History, r: &mut Report) {
+        let cands: Vec<usize> = (0..h.w.vamms.len()).filter(|i| h.last.vamms[*i].fluct == 0 && h.last.vamms[*i].open && h.last.vamms[*i].registered).collect();
+        if cands.is_empty() || h.last.eng.paused {
+            return;
+        }
+        let v = *self.rng.pick(&cands);
+        let d = h.w.d;
+        let up = self.rng.chance(1, 2);
+        // quiet history so that the TWAP sits at the pre-pump price
+        self.advance(h, r, 50, 1000);
+        let q = h.last.vamms[v].q;
+        let init = h.last.eng.initial.max(1);
+        let maxl = (d * d / init).max(d);
+        if h.last.pos(v, "whale").is_some() {
+            self.close(h, r, "whale", v, 0);
+        }
+        let pump = q * self.rng.u128_range(15, 40) / 100;
+        if !self.open(h, r, "whale", v, up, pump, d, 0).out.ok {
+            return;
+        }
+        let k = self.rng.range(2, 3) as usize;
+        for t in TRADERS.iter().take(k) {
+            if h.last.pos(v, t).is_some() {
+                self.close(h, r, t, v, 0);
+            }
+            let n = q * self.rng.u128_range(2, 20) / 1000;
+            self.open(h, r, t, v, up, (n * d / maxl).max(1), maxl, 0);
+        }
+        self.close(h, r, "whale", v, 0);
+        for t in TRADERS.iter().take(k) {
+            let caller = *self.rng.pick(&["liquidator", "stranger"]);
+            self.liquidate(h, r, caller, v, t, 0);
+        }
+    }
+
     pub fn run_macro(&mut self, h: &mut History, r: &mut Report) {
         let ws = self.prof.w_macro;
         match self.rng.weighted(&ws) {
@@ -1271,7 +1377,11 @@ impl Gen {
             }
             4 => {
                 if self.rng.chance(self.prof.pyramid_pct, 100) {
-                    self.macro_pyramid(h, r)
+                    if self.rng.chance(1, 3) {
+                        self.macro_pump_dump(h, r)
+                    } else {
+                        self.macro_pyramid(h, r)
+                    }
                 } else {
                     self.macro_same_block(h, r)
                 }
